@@ -4,6 +4,7 @@ import json
 import shutil
 
 import common
+from props import c04
 import gen_schema
 import serde_run
 import to_coq
@@ -140,6 +141,19 @@ def run(chk):
                 chk.count((ta, tb, unroll), nontrivial=ta != tb, sample=None)
                 if va != vb:
                     fails.append({"kind": "packed-layout", "schema": ta, "twin": tb, "unroll": unroll, "layout": va, "twin_layout": vb})
+                # "ascending field id" itself, not only "the same for both declaration orders": the leaves of every layout are the
+                # hierarchical names read off the schema as written, fields in ascending id (the reference walk of C04)
+                ref_a = serde_run.parse(ta).unwrap()
+                for im, (x, _) in zip(ref_a.impls, ra):
+                    if x is None:
+                        continue
+                    try:
+                        want = c04.expected_names(ref_a, im.type, unroll)
+                    except Exception:
+                        continue
+                    if [p.name for p in x] != want:
+                        fails.append({"kind": "packed-layout-not-in-ascending-field-id", "schema": ta, "unroll": unroll, "impl": im.name + "/" + im.protocol,
+                                      "leaves": [p.name for p in x][:16], "ascending_id_order": want[:16]})
             da, ea = dbc_files(fa)
             db, eb = dbc_files(fb)
             if da != db or (ea is None) != (eb is None):
